@@ -79,6 +79,10 @@ def mutate_line(kind, line, req_name):
         return req_name + ", 7 8"
     if kind == "tabpay":                # conforming: the payload begins with a tab
         return req_name + ",\tB2"
+    if kind == "jsonish":               # another device's answer, with str.format's own characters
+        return '{"status":"busy"}'
+    if kind == "lonebrace":
+        return "}{0} busy"
     if kind == "garbage":
         return "\x7f??"
     if kind == "bare":                  # conforming: name only, no payload
@@ -135,6 +139,7 @@ class FakePort:
         self._inbuf = ""
         self.timeout = 1.0
         self.fail_next_close = False
+        self.clock = None               # optional virtual clock: an empty read takes real time
 
     @property
     def is_open(self):                  # as on a pyserial Serial object
@@ -206,10 +211,14 @@ class FakePort:
             if choice:
                 raise EXC[self.profile.read_exc[choice - 1]]()
         if not self.queue:
+            if self.clock is not None:
+                self.clock.advance(1.6 * self.timeout)
             return b""
         head = self.queue[0]
         if head.delay > 0:
             head.delay -= 1
+            if self.clock is not None:      # a read that times out blocks for (more than) the timeout
+                self.clock.advance(1.6 * self.timeout)
             if self.profile.blank:
                 if head.blank is None:      # one choice per reply line: how its empty reads look
                     choice = self._choose(f"q{head.req}.blank", 1 + len(self.profile.blank),
@@ -496,4 +505,31 @@ class patched:                                      # pylint: disable=invalid-na
     def __exit__(self, *exc):
         for key, val in self.saved.items():
             setattr(self.module, key, val)
+        return False
+
+
+class VirtualClock:
+    """with VirtualClock() as clock: time.monotonic / time.time / time.perf_counter answer from
+    a counter that only advances when the fake port says so (an empty read that blocks for its
+    timeout) - wall-clock time is one more source of nondeterminism the harness owns."""
+
+    def __init__(self, start=1000.0):
+        self.now = start
+        self._saved = None
+
+    def advance(self, seconds):
+        self.now += seconds
+
+    def _read(self):
+        return self.now
+
+    def __enter__(self):
+        import time                         # pylint: disable=import-outside-toplevel
+        self._saved = (time.monotonic, time.time, time.perf_counter)
+        time.monotonic = time.time = time.perf_counter = self._read
+        return self
+
+    def __exit__(self, *exc):
+        import time                         # pylint: disable=import-outside-toplevel
+        time.monotonic, time.time, time.perf_counter = self._saved
         return False
